@@ -9,7 +9,15 @@
 //!         I:<depth>:<line>:<file>:<origin>:<a>/<s>+<a>/<s>..   o:<id>:<name>
 //! The engine renders the records as symbol-file text for the real parser; the model reads the
 //! records themselves — so the tie covers parser + table building + lookup.
+//!
+//! `symb xwalk c11 <same payload>`: a `fill` case under another name (request `symb fill …`).
+//! `symb xwalk wlk base:<b> msize:<m> q:<ONE address> r <recs>`: the same payload read by the SECOND
+//! Lean model of `fill_symbol`, the one inside the stack-walk model `MdModel.Walk`: a context-only walk
+//! (`walk amd64 linux ctx:rip=<a> valid:all stack:none mods:<b>:<m>:m sym:m:<F|..;P|..>`, or
+//! `chain walk win:m:<ty|addr|size|par|0|0|hp|rest;..> …` when STACK WIN records are present); the
+//! answer is the walker's `frames:…` line. See the `xwalk` section below.
 
+use super::walk;
 use crate::common::*;
 use breakpad_symbols::{FrameSymbolizer, SymbolFile};
 use minidump::format::CONTEXT_AMD64;
@@ -36,6 +44,8 @@ enum R {
 }
 
 struct Case {
+    /// `fill`, `xwalk c11` (same payload, Symbolize model) or `xwalk wlk` (walker model, one address)
+    head: &'static str,
     base: u64,
     msize: u32,
     qs: Vec<u64>,
@@ -47,7 +57,17 @@ fn name_ok(s: &str) -> bool {
 }
 
 fn parse_case(case: &str) -> Option<Case> {
-    let f: Vec<&str> = case.split(' ').filter(|s| !s.is_empty()).collect();
+    let mut f: Vec<&str> = case.split(' ').filter(|s| !s.is_empty()).collect();
+    let mut head = "fill";
+    if f.len() >= 3 && f[0] == "symb" && f[1] == "xwalk" {
+        head = match f[2] {
+            "c11" => "xwalk c11",
+            "wlk" => "xwalk wlk",
+            _ => return None,
+        };
+        f.remove(2);
+        f[1] = "fill";
+    }
     if f.len() < 6 || f[0] != "symb" || f[1] != "fill" || f[5] != "r" {
         return None;
     }
@@ -103,7 +123,10 @@ fn parse_case(case: &str) -> Option<Case> {
         }
         recs.push(r);
     }
-    Some(Case { base, msize, qs, recs })
+    if head == "xwalk wlk" && qs.len() != 1 {
+        return None;
+    }
+    Some(Case { head, base, msize, qs, recs })
 }
 
 fn tok(r: &R) -> String {
@@ -122,9 +145,9 @@ fn tok(r: &R) -> String {
     }
 }
 
-fn render_case(base: u64, msize: u32, qs: &[u64], recs: &[R]) -> String {
+fn render_case(head: &str, base: u64, msize: u32, qs: &[u64], recs: &[R]) -> String {
     format!(
-        "symb fill base:{base} msize:{msize} q:{} r {}",
+        "symb {head} base:{base} msize:{msize} q:{} r {}",
         qs.iter().map(|q| q.to_string()).collect::<Vec<_>>().join(","),
         recs.iter().map(tok).collect::<Vec<_>>().join(" ")
     )
@@ -465,7 +488,10 @@ fn oracle(v: &View, clean: bool, base: u64, instr: u64, got: &Frame, ws: Option<
             if let Some(f) = as_func.first() {
                 tags.push("fn:func".into());
                 reported_func = Some(**f);
-            } else if v.funcs.iter().any(|f| f.name == *name) {
+            } else if v.funcs.iter().any(|f| f.name == *name)
+                && !v.pubs.iter().any(|p| p.2 == *name && p.0.checked_add(base) == Some(*fb))
+            {
+                // (a PUBLIC may bear a FUNC's name: then the PUBLIC checks below apply)
                 fail("reported-func-does-not-cover", format!("function {name} base {fb}; FUNC records covering the address: {:?}", covering.iter().map(|f| &f.name).collect::<Vec<_>>()));
             } else {
                 // must be a PUBLIC
@@ -895,7 +921,7 @@ fn exhaustive(tier: Tier, emit: &mut dyn FnMut(String)) {
                 recs.push(R::Inline(d, 10 + j as u32, 1, 1 + j as u32, vec![(a, sz)]));
             }
             let qs: Vec<u64> = (3..=13u64).map(|a| base + a).collect();
-            emit(render_case(base, 64, &qs, &recs));
+            emit(render_case("fill", base, 64, &qs, &recs));
         }
         if cur.len() < maxlen {
             for i in 0..cands.len() {
@@ -943,8 +969,28 @@ fn exhaustive(tier: Tier, emit: &mut dyn FnMut(String)) {
                 recs.push(R::Pub(paddrs[ps[1]], 1, "p1".into()));
             }
             let qs: Vec<u64> = (0..=11u64).map(|a| base + a).collect();
-            emit(render_case(base, 64, &qs, &recs));
+            emit(render_case("fill", base, 64, &qs, &recs));
+            if (n * psets.len() + m) % 5 == 2 {
+                // a module that ends below 2^64 (one whose range overflows covers nothing)
+                emit_xwalk(base, if base == 0 { 64 } else { 13 }, &qs, &recs, false, emit);
+            }
         }
+    }
+}
+
+/// the `xwalk` readings of one payload: the whole payload for the Symbolize model, one case per
+/// address for the walker model. `thin` (random files, up to 48 addresses each): every other address
+/// inside the module when there are more than 12, every fourth one outside it (the walker reports no
+/// function there whatever the records say).
+fn emit_xwalk(base: u64, msize: u32, qs: &[u64], recs: &[R], thin: bool, emit: &mut dyn FnMut(String)) {
+    emit(render_case("xwalk c11", base, msize, qs, recs));
+    let module = range_excl(base, msize);
+    for (i, q) in qs.iter().enumerate() {
+        let inside = matches!(module, Some((lo, hi)) if lo <= *q && *q <= hi);
+        if thin && ((inside && qs.len() > 12 && i % 2 == 1) || (!inside && i % 4 != 0)) {
+            continue;
+        }
+        emit(render_case("xwalk wlk", base, msize, &[*q], recs));
     }
 }
 
@@ -979,18 +1025,186 @@ fn generate_inner(tier: Tier, rng: &mut Rng, emit: &mut dyn FnMut(String)) {
                 1 => u32::MAX,
                 _ => (maxq - base).saturating_add(1).min(u32::MAX as u64) as u32,
             };
-            emit(render_case(base, msize, &qs, &recs));
+            emit(render_case("fill", base, msize, &qs, &recs));
+            if k % 16 == 3 || k % 16 == 8 {
+                emit_xwalk(base, msize, &qs, &recs, true, emit);
+            }
         }
     }
 }
 
 fn exec_inner(case: &str) -> ImplResult {
+    let Some(c) = parse_case(case) else {
+        return ImplResult { out: "bad-op".into(), ..Default::default() };
+    };
+    match c.head {
+        "xwalk wlk" => exec_xwalk_wlk(&c),
+        "xwalk c11" => {
+            let mut res = exec_fill(&c);
+            if res.out == "PANIC" {
+                res.tags.push("xwalk:c11-panic".into());
+            }
+            res.tags.push("xwalk:c11-model".into());
+            res
+        }
+        _ => exec_fill(&c),
+    }
+}
+
+// ------------------------------------------------------------------------------------ xwalk
+// The framework has two Lean models of `SymbolFile::fill_symbol`: `MdModel.Symbolize` (C11's subject)
+// and the FUNC / PUBLIC / STACK WIN parameter-size lookup inside the stack-walk model `MdModel.Walk`
+// (`Walk/Sym.lean`). The `xwalk` cases run one payload through the real code and send it to the
+// Symbolize model (line `symb xwalk c11 …`, request `symb fill …`) and, address by address, to the
+// walker model (line `symb xwalk wlk …`, request `walk …` / `chain walk win:… …`: a context-only walk,
+// frame 0 carries the symbolization). The `wlk` execution also compares frame 0 with the direct
+// `fill_symbol` answer, so a slip of the translation between the two case formats cannot hide.
+
+/// the FUNC / PUBLIC records as the walker protocol carries them (line, inline, file and origin
+/// records have no counterpart there)
+fn walk_recs(recs: &[R]) -> Vec<walk::Rec> {
+    recs.iter()
+        .filter_map(|r| match r {
+            R::Func(a, s, p, n) => Some(walk::Rec::F { addr: *a, size: *s, psize: *p, name: n.clone() }),
+            R::Pub(a, p, n) => Some(walk::Rec::P { addr: *a, psize: *p, name: n.clone() }),
+            _ => None,
+        })
+        .collect()
+}
+
+/// the STACK WIN records as `chain walk win:m:…` carries them (`ty|addr|size|par|sav|loc|hp|rest`),
+/// matching what `render_text` writes
+fn win_field(recs: &[R]) -> Option<String> {
+    let w: Vec<String> = recs
+        .iter()
+        .filter_map(|r| match r {
+            R::Win(4, a, s, p) => Some(format!("4|{a}|{s}|{p}|0|0|1|$eip")),
+            R::Win(_, a, s, p) => Some(format!("0|{a}|{s}|{p}|0|0|0|1")),
+            _ => None,
+        })
+        .collect();
+    if w.is_empty() {
+        None
+    } else {
+        Some(format!("win:m:{}", w.join(";")))
+    }
+}
+
+/// the walker-engine case of a `wlk` case: real side (`model == false`: the symbol text itself) or
+/// the model's request (`model == true`: FUNC / PUBLIC records, STACK WIN records in `extra`)
+fn to_walk_case(c: &Case, model: bool) -> walk::Case {
+    let mut w = walk::Case {
+        engine: "walk".into(),
+        arch: "amd64".into(),
+        os: "linux".into(),
+        regs: vec![("rip".into(), c.qs[0])],
+        valid: None,
+        stack: None,
+        mods: vec![(c.base, c.msize, "m".into())],
+        syms: vec![],
+        symraw: vec![],
+        be: false,
+        extra: vec![],
+    };
+    if model {
+        w.syms.push(("m".into(), walk_recs(&c.recs)));
+        if let Some(win) = win_field(&c.recs) {
+            w.engine = "chain".into();
+            w.extra = vec!["walk".into(), win];
+        }
+    } else {
+        w.symraw.push(("m".into(), render_text(&c.recs).into_bytes()));
+    }
+    w
+}
+
+fn exec_xwalk_wlk(c: &Case) -> ImplResult {
+    let mut res = ImplResult::default();
+    let q = c.qs[0];
+    let text = render_text(&c.recs);
+    let sf = match catch(|| SymbolFile::from_bytes(text.as_bytes())) {
+        Ok(Ok(sf)) => sf,
+        Ok(Err(e)) => {
+            res.out = format!("PARSE-ERROR {e:?}");
+            return res;
+        }
+        Err(msg) => {
+            res.out = "PANIC".into();
+            res.oracle.push(("symbol-file-build-panics".into(), msg));
+            return res;
+        }
+    };
+    res.tags.push("xwalk:walk-model".into());
+    let v = view(&c.recs);
+    if !v.wins.is_empty() {
+        res.tags.push("xwalk:has-win".into());
+    }
+    let module = MinidumpModule::new(c.base, c.msize, "m");
+    let direct = catch(|| {
+        let mut rec = Recorder { instruction: q, fr: Frame::default() };
+        sf.fill_symbol(&module, &mut rec);
+        rec.fr
+    });
+    let w = to_walk_case(c, false);
+    match walk::run_walk(&w) {
+        Err(msg) => {
+            res.out = "PANIC".into();
+            res.oracle.push(("walk-stack-panics".into(), msg));
+        }
+        Ok(stack) => {
+            res.out = walk::show_stack(&w, &stack);
+            let f0 = &stack.frames[0];
+            let got: Option<(String, u64, u32)> = match (&f0.function_name, f0.function_base, f0.parameter_size) {
+                (Some(n), Some(b), Some(p)) => Some((n.clone(), b, p)),
+                _ => None,
+            };
+            if stack.frames.len() != 1 {
+                res.oracle.push(("xwalk-readings-differ".into(), format!("{} frames from a context without stack memory", stack.frames.len())));
+            }
+            let inside = range_excl(c.base, c.msize).map(|(lo, hi)| lo <= q && q <= hi).unwrap_or(false);
+            res.tags.push(if inside { "xwalk:in-module".into() } else { "xwalk:outside-module".into() });
+            match &direct {
+                Ok(fr) => {
+                    let want = if inside { fr.func.clone() } else { None };
+                    if got != want {
+                        res.oracle.push((
+                            "xwalk-readings-differ".into(),
+                            format!("instr {q} base {} msize {}: walk_stack frame 0 function {got:?}, fill_symbol {:?} (module covers the address: {inside})", c.base, c.msize, fr.func),
+                        ));
+                    }
+                }
+                Err(msg) => res.oracle.push(("fill-symbol-panics".into(), format!("instr {q}: {msg}"))),
+            }
+            match &got {
+                Some((name, fb, ps)) => {
+                    res.nontrivial = true;
+                    let a = q.wrapping_sub(c.base);
+                    let func = v.funcs.iter().find(|f| {
+                        f.name == *name
+                            && f.addr.checked_add(c.base) == Some(*fb)
+                            && matches!(range_excl(f.addr, f.size), Some((lo, hi)) if lo <= a && a <= hi)
+                    });
+                    if let Some(f) = func {
+                        res.tags.push("xwalk:func".into());
+                        if !v.funcs.iter().any(|g| g.name == f.name && g.addr == f.addr && g.psize == *ps) {
+                            res.tags.push("xwalk:psize-from-win".into());
+                        }
+                    } else if v.pubs.iter().any(|p| p.2 == *name) {
+                        res.tags.push("xwalk:public".into());
+                    } else {
+                        res.tags.push("xwalk:unknown-name".into());
+                    }
+                }
+                None => res.tags.push("xwalk:none".into()),
+            }
+        }
+    }
+    res
+}
+
+fn exec_fill(c: &Case) -> ImplResult {
     {
         let mut res = ImplResult::default();
-        let Some(c) = parse_case(case) else {
-            res.out = "bad-op".into();
-            return res;
-        };
         let text = render_text(&c.recs);
         let sf = match catch(|| SymbolFile::from_bytes(text.as_bytes())) {
             Ok(Ok(sf)) => sf,
@@ -1103,7 +1317,7 @@ impl Engine for Symb {
         "symb"
     }
     fn rule(&self) -> String {
-        "case = (symbol records, module base, module size, instruction addresses). exhaustive small domains (see exhaustive_part) + random files: 0..4 FUNCs with line tables (gaps, zero-size, duplicate/overlapping lines), INLINE records nested to depth 8 with multi-range records, zero-size/duplicate/overlapping/depth-gap inlinees, INLINE_ORIGIN before/inside/after FUNC blocks or missing, PUBLICs before/at/inside/after FUNCs incl. equal addresses, duplicate FILE ids, STACK WIN 4/0 parameter sizes; half of the files non-overlapping (linear-scan oracle applies), half with overlapping/duplicate FUNCs. Regions: low addresses, around 2^32, top of the u64 space. Bases {0, 0x1000, 2^32, 2^64-1-k}. Addresses: start-1, start, end-1, end of every record + base-1, base, one random. non-trivial = at least one address resolved to a function; distinct = distinct case line".into()
+        "case = (symbol records, module base, module size, instruction addresses). exhaustive small domains (see exhaustive_part) + random files: 0..4 FUNCs with line tables (gaps, zero-size, duplicate/overlapping lines), INLINE records nested to depth 8 with multi-range records, zero-size/duplicate/overlapping/depth-gap inlinees, INLINE_ORIGIN before/inside/after FUNC blocks or missing, PUBLICs before/at/inside/after FUNCs incl. equal addresses, duplicate FILE ids, STACK WIN 4/0 parameter sizes; half of the files non-overlapping (linear-scan oracle applies), half with overlapping/duplicate FUNCs. Regions: low addresses, around 2^32, top of the u64 space. Bases {0, 0x1000, 2^32, 2^64-1-k}. Addresses: start-1, start, end-1, end of every record + base-1, base, one random. non-trivial = at least one address resolved to a function; distinct = distinct case line. xwalk: every 8th random file (both parities) and every 5th exhaustive FUNC/PUBLIC case is emitted again as `xwalk c11` (same payload, Symbolize model) and address by address as `xwalk wlk` (walker model: context-only walk, frame 0's function compared; addresses thinned to every 2nd inside / every 4th outside the module in random files)".into()
     }
     fn exhaustive_part(&self) -> Option<String> {
         Some("all lists of <= 2 (quick) / <= 3 (thorough) INLINE ranges over depth {0,1} x start {4,6,8} x size {0,2,4} inside FUNC 4 8, every address 3..=13; all choices of <= 2 FUNCs (from 5) and <= 2 PUBLICs (from 7 addresses), every address 0..=11; bases 0 and 2^64-14".into())
@@ -1114,6 +1328,19 @@ impl Engine for Symb {
         if let Err(msg) = catch(|| generate_inner(tier, rng, emit)) {
             eprintln!("symb generator panicked: {msg}");
             std::process::exit(3);
+        }
+    }
+
+    fn model_request(&self, case: &str) -> Option<String> {
+        // fast path: everything but the xwalk cases goes to the model verbatim
+        if !case.starts_with("symb xwalk ") {
+            return Some(case.to_string());
+        }
+        let Some(c) = parse_case(case) else { return Some(case.to_string()) };
+        match c.head {
+            "xwalk c11" => Some(render_case("fill", c.base, c.msize, &c.qs, &c.recs)),
+            "xwalk wlk" => Some(to_walk_case(&c, true).render()),
+            _ => Some(case.to_string()),
         }
     }
 
@@ -1134,7 +1361,7 @@ impl Engine for Symb {
             while qs.len() > 1 && i < qs.len() {
                 let mut cand = qs.clone();
                 cand.remove(i);
-                if still_fails(&render_case(c.base, c.msize, &cand, &recs)) {
+                if still_fails(&render_case(c.head, c.base, c.msize, &cand, &recs)) {
                     qs = cand;
                     progress = true;
                 } else {
@@ -1145,7 +1372,7 @@ impl Engine for Symb {
             while i < recs.len() {
                 let mut cand = recs.clone();
                 cand.remove(i);
-                let line = render_case(c.base, c.msize, &qs, &cand);
+                let line = render_case(c.head, c.base, c.msize, &qs, &cand);
                 if parse_case(&line).is_some() && still_fails(&line) {
                     recs = cand;
                     progress = true;
@@ -1160,7 +1387,7 @@ impl Engine for Symb {
                             rs2.remove(k);
                             let mut cand = recs.clone();
                             cand[i] = R::Inline(*d, *l, *f, *o, rs2);
-                            if still_fails(&render_case(c.base, c.msize, &qs, &cand)) {
+                            if still_fails(&render_case(c.head, c.base, c.msize, &qs, &cand)) {
                                 recs = cand;
                                 progress = true;
                                 shrunk = true;
@@ -1175,6 +1402,6 @@ impl Engine for Symb {
                 i += 1;
             }
         }
-        render_case(c.base, c.msize, &qs, &recs)
+        render_case(c.head, c.base, c.msize, &qs, &recs)
     }
 }
